@@ -1200,7 +1200,7 @@ func (e *c08Env) blockStep() {
 }
 
 func TestC08(t *testing.T) {
-	rec := ev.New("C08", "exploration", "seeded random histories of real signed lend-module transactions (all 12 user messages) by 5 users over 2 pools sharing their transit assets; amounts by class (tiny/typical/boundary solved from state/+-1/whole/more than available); blocks with gaps 1s..2y, price moves, price crashes with generation-2 liquidation in part of the runs; 3 universe variants (round prices, odd prices + 1e8 decimals, steep rates). distinct = (message, amount class, outcome, variant) and (LTV path, class, sign of debt-bound, interest>0) tuples")
+	rec := ev.New("C08", "exploration", "seeded random histories of real signed lend-module transactions (all 12 user messages) by 5 users over 2 pools sharing their transit assets; amounts by class (tiny/typical/boundary solved from state/+-1/whole/more than available); blocks with gaps 1s..2y, price moves, price crashes with generation-2 liquidation in part of the runs, there also bidders (tiny / partial / exact / oversized market bids) settling the auctions of seized borrows, an app reserve fund that is large / small / absent, and a final phase with the generation-1 liquidate-borrow message and bids on its lend auctions; fund messages, rate-model updates and price-feed outages in the middle of every history; 3 universe variants (round prices, odd prices + 1e8 decimals, steep rates). distinct = (message, amount class, outcome, variant) and (LTV path, class, sign of debt-bound, interest>0) tuples")
 	defer finish(t, rec)
 	rnd := rng("C08")
 	runs := ev.Pick(4, 14)
@@ -1228,6 +1228,14 @@ func TestC08(t *testing.T) {
 	rec.Floor("withdraw_beyond_available_rejected", 10)
 	rec.Floor("close_lend_with_open_borrow_rejected", 10)
 	rec.Floor("borrows_seized_by_liquidation", 5)
+	rec.Floor("lend_auction_bids_ok", 20)
+	rec.Floor("lend_auctions_settled", 5)
+	rec.Floor("borrows_seized_by_gen1_message", 3)
+	rec.Floor("gen1_lend_auctions_closed", 2)
+	rec.Floor("rate_param_updates_mid_run", 10)
+	rec.Floor("ok_fund-module", 10)
+	rec.Floor("ok_fund-reserve", 5)
+	rec.Floor("steps_with_an_inactive_price", 50)
 	rec.Assume("oracle prices are the TWA records read through MarketKeeper.GetTwa; they are set by the harness between blocks and stay active (no band-oracle feed is installed)")
 	rec.Assume("applicable LTV: collateral asset's Ltv (ELtv for an e-mode pair); for an inter-pool borrow multiplied by the Ltv of the transit asset that was bridged; accrued interest is counted as floor(InterestAccumulated) after the accrual done by the transaction itself")
 	rec.Assume("rewards credited to a lend position inside a withdraw / close-lend transaction are read from the module's AllReserveStats.TotalAmountOutToLenders delta")
